@@ -70,6 +70,8 @@ def _newdir(tag):
 def _env(xdg, fault=None, trace=None):
     env = dict(os.environ)
     env['XDG_CACHE_HOME'] = xdg
+    # temporary files of compilers that get killed stay behind: keep them inside the trial directory, which is removed afterwards
+    tmpd = os.path.join(os.path.dirname(os.path.abspath(xdg)), 'tmp'); os.makedirs(tmpd, exist_ok=True); env['TMPDIR'] = tmpd
     env.pop('PYIGA_VERIF_COMPILE_FAULT', None); env.pop('PYIGA_VERIF_COMPILE_TRACE', None)
     if fault: env['PYIGA_VERIF_COMPILE_FAULT'] = fault
     if trace: env['PYIGA_VERIF_COMPILE_TRACE'] = trace
